@@ -14,6 +14,14 @@ pub struct SchedCase {
     pub base: FullCase,
     /// per thread: (query index, spin iterations before the query, yield before the query)
     pub threads: Vec<Vec<(usize, u16, bool)>>,
+    /// tag sets assigned (through a write lock) before each round; every thread's ops are split
+    /// evenly over the rounds
+    #[serde(default)]
+    pub rounds: Vec<Vec<String>>,
+    /// the shared engine runs with the discard-everything policy (true) or the default one
+    /// (false: compiled regexes stay cached, which is what exposes stale cache entries)
+    #[serde(default)]
+    pub discard: bool,
 }
 
 impl Case for SchedCase {
@@ -23,6 +31,13 @@ impl Case for SchedCase {
             for i in 0..self.threads.len() {
                 let mut c = self.clone();
                 c.threads.remove(i);
+                v.push(c);
+            }
+        }
+        if self.rounds.len() > 1 {
+            for i in 0..self.rounds.len() {
+                let mut c = self.clone();
+                c.rounds.remove(i);
                 v.push(c);
             }
         }
@@ -40,18 +55,25 @@ fn regex_heavy_case(t: &mut Tape) -> FullCase {
     // many regex rules so that (with a discard-everything policy) every query compiles regexes
     for i in 0..(4 + t.pick(12)) {
         let w = t.choose(&["ads", "banner", "track", "pixel", "img"]);
-        base.rules.push(match t.pick(5) {
+        let mut r = match t.pick(7) {
             0 => format!("/{}^*{}", w, i),
             1 => format!("/{}*x{}^", w, i % 3),
             2 => format!("/\\/{}\\d*\\/[a-z]{}/", w, i % 2),
             3 => format!("||example.com/{}*^{}", w, i % 4),
+            4 => format!("||ads.net/*/{}^", w),
+            5 => format!("||example.com^*{}", w),
             _ => format!("@@/{}^ok*", w),
-        });
+        };
+        // same-shape tagged rules: re-allocated on every tag switch
+        if t.chance(1, 2) && !r.starts_with("@@") {
+            r = format!("{}$tag={}", r, t.choose(gen::TAGS));
+        }
+        base.rules.push(r);
     }
     for _ in 0..(4 + t.pick(6)) {
         let w = t.choose(&["ads", "banner", "track", "pixel", "img"]);
         base.reqs.push(ReqSpec {
-            url: format!("https://{}/{}{}/{}", t.choose(&["example.com", "cdn.example.com", "other.org"]), w, t.pick(4), t.choose(&["x1", "ok/1", "a", "0/b"])),
+            url: format!("https://{}/{}{}/{}", t.choose(&["example.com", "cdn.example.com", "other.org", "ads.net.ads.net", "xads.net.ads.net", "example.com.example.com"]), w, t.pick(4), t.choose(&["x1", "ok/1", "a", "0/b", "foo/track", "q/banner?x"])),
             source: "https://site.org/".into(),
             rtype: t.choose(&["script", "image", "document", "subdocument"]).to_string(),
         });
@@ -72,7 +94,17 @@ pub fn decode_sched(t: &mut Tape) -> SchedCase {
         }
         threads.push(ops);
     }
-    SchedCase { base, threads }
+    let mut rounds = vec![];
+    for _ in 0..(1 + t.pick(5)) {
+        let mut set = vec![];
+        for tg in gen::TAGS {
+            if t.chance(1, 2) {
+                set.push(tg.to_string());
+            }
+        }
+        rounds.push(set);
+    }
+    SchedCase { base, threads, rounds, discard: t.chance(1, 2) }
 }
 
 /// answers of query `k` (requests first, then pages)
@@ -83,74 +115,59 @@ fn answer(e: &adblock::Engine, c: &FullCase, k: usize) -> String {
 #[cfg(not(feature = "unsync"))]
 pub fn check_sched(c: &SchedCase, obs: &mut Obs) -> Result<(), String> {
     use adblock::regex_manager::RegexManagerDiscardPolicy;
-    use std::sync::atomic::{AtomicUsize, Ordering};
-    use std::sync::{Arc, Barrier};
+    use std::sync::atomic::{AtomicBool, AtomicUsize, Ordering};
+    use std::sync::{Arc, Barrier, RwLock};
     use std::time::Duration;
     let res = gen::scriptlet_resources();
-    let mk = || {
+    let aggressive = || RegexManagerDiscardPolicy { cleanup_interval: Duration::from_nanos(1), discard_unused_time: Duration::from_nanos(0) };
+    let mk = |tags: &Vec<String>, discard: bool| {
         let mut e = build_engine(&c.base.rules, c.base.debug, c.base.optimize, &res);
-        e.use_tags(&c.base.tags.iter().map(|s| s.as_str()).collect::<Vec<_>>());
-        e.set_regex_discard_policy(RegexManagerDiscardPolicy { cleanup_interval: Duration::from_nanos(1), discard_unused_time: Duration::from_nanos(0) });
+        e.use_tags(&tags.iter().map(|s| s.as_str()).collect::<Vec<_>>());
+        if discard {
+            e.set_regex_discard_policy(aggressive());
+        }
         e
     };
-    let nq = c.base.reqs.len() + c.base.pages.len();
-    let sibling = mk();
-    let sequential: Vec<String> = (0..nq).map(|k| answer(&sibling, &c.base, k)).collect();
-    let shared = Arc::new(mk());
-    let barrier = Arc::new(Barrier::new(c.threads.len()));
+    let nq = (c.base.reqs.len() + c.base.pages.len()).max(1);
+    let rounds: Vec<Vec<String>> = if c.rounds.is_empty() { vec![c.base.tags.clone()] } else { c.rounds.clone() };
+    // what a single thread answers: a fresh engine per tag set, with the default discard policy
+    // and with the discard-everything policy (answers must not depend on it)
+    let mut sequential: Vec<Vec<String>> = vec![];
+    for tags in &rounds {
+        let plain = mk(tags, false);
+        let a: Vec<String> = (0..nq).map(|k| answer(&plain, &c.base, k)).collect();
+        let disc = mk(tags, true);
+        for k in 0..nq {
+            // twice: the second evaluation runs after everything was discarded again
+            for _ in 0..2 {
+                let b = answer(&disc, &c.base, k);
+                if b != a[k] {
+                    return Err(format!("single thread, tags {:?}, query {}: the answer depends on the regex discard policy: default {:?} vs discard-everything {:?}", tags, k, a[k], b));
+                }
+            }
+        }
+        sequential.push(a);
+    }
+    let shared = Arc::new(RwLock::new(mk(&rounds[0], c.discard)));
+    let n = c.threads.len();
+    let barrier = Arc::new(Barrier::new(n + 1));
     let in_flight = Arc::new(AtomicUsize::new(0));
     let overlaps = Arc::new(AtomicUsize::new(0));
     let progress = Arc::new(AtomicUsize::new(0));
-    let (tx, rx) = std::sync::mpsc::channel::<Result<(), String>>();
+    let finished = Arc::new(AtomicBool::new(false));
     let case = Arc::new(c.clone());
     let seq = Arc::new(sequential);
-    let mut handles = vec![];
-    for (ti, ops) in c.threads.iter().enumerate() {
-        let (shared, barrier, in_flight, overlaps, progress, tx, case, seq, ops) =
-            (shared.clone(), barrier.clone(), in_flight.clone(), overlaps.clone(), progress.clone(), tx.clone(), case.clone(), seq.clone(), ops.clone());
-        handles.push(std::thread::spawn(move || {
-            crate::run::install_panic_hook();
-            barrier.wait();
-            let r = crate::run::guard(|| {
-                for (k, spin, yld) in ops {
-                    let k = k % seq.len().max(1);
-                    for _ in 0..spin {
-                        std::hint::spin_loop();
-                    }
-                    if yld {
-                        std::thread::yield_now();
-                    }
-                    if in_flight.fetch_add(1, Ordering::SeqCst) > 0 {
-                        overlaps.fetch_add(1, Ordering::Relaxed);
-                    }
-                    let a = answer(&shared, &case.base, k);
-                    in_flight.fetch_sub(1, Ordering::SeqCst);
-                    progress.fetch_add(1, Ordering::Relaxed);
-                    if a != seq[k] {
-                        return Err(format!("thread {} query {}: concurrent answer {:?} differs from the sequential answer {:?}", ti, k, a, seq[k]));
-                    }
+    // progress watchdog: a deadlock is reported only if nothing completes anywhere for 60 s
+    {
+        let (progress, finished, case) = (progress.clone(), finished.clone(), case.clone());
+        std::thread::spawn(move || {
+            let mut last = usize::MAX;
+            let mut idle = 0;
+            loop {
+                std::thread::sleep(Duration::from_secs(5));
+                if finished.load(Ordering::SeqCst) {
+                    return;
                 }
-                Ok(())
-            })
-            .unwrap_or_else(|p| Err(format!("thread {} panicked: {}", ti, p)));
-            let _ = tx.send(r);
-        }));
-    }
-    drop(tx);
-    // progress watchdog: a violation only if nothing completed anywhere for 60 s
-    let mut done = 0;
-    let mut last = 0;
-    let mut idle = 0u32;
-    let mut failure: Option<String> = None;
-    while done < c.threads.len() {
-        match rx.recv_timeout(Duration::from_secs(5)) {
-            Ok(r) => {
-                done += 1;
-                if let Err(m) = r {
-                    failure.get_or_insert(m);
-                }
-            }
-            Err(_) => {
                 let p = progress.load(Ordering::Relaxed);
                 if p == last {
                     idle += 1;
@@ -159,25 +176,94 @@ pub fn check_sched(c: &SchedCase, obs: &mut Obs) -> Result<(), String> {
                     last = p;
                 }
                 if idle >= 12 {
-                    // threads are stuck: report and leave (they cannot be joined)
                     println!(
                         "F {}",
-                        serde_json::to_string(&Failure { check: "schedules".into(), case: serde_json::to_value(c).unwrap_or(Value::Null), message: format!("DEADLOCK: no query completed on any of {} threads for 60 s ({} of {} threads finished, {} queries done)", c.threads.len(), done, c.threads.len(), p) }).unwrap_or_default()
+                        serde_json::to_string(&Failure { check: "schedules".into(), case: serde_json::to_value(&*case).unwrap_or(Value::Null), message: format!("DEADLOCK: no query completed on any of {} threads for 60 s ({} queries done)", case.threads.len(), p) }).unwrap_or_default()
                     );
                     std::process::exit(3);
                 }
             }
+        });
+    }
+    let nrounds = rounds.len();
+    let mut handles = vec![];
+    for (ti, ops) in c.threads.iter().enumerate() {
+        let (shared, barrier, in_flight, overlaps, progress, case, seq, ops) = (shared.clone(), barrier.clone(), in_flight.clone(), overlaps.clone(), progress.clone(), case.clone(), seq.clone(), ops.clone());
+        handles.push(std::thread::spawn(move || -> Result<(), String> {
+            crate::run::install_panic_hook();
+            let per = (ops.len() + nrounds - 1) / nrounds;
+            let mut result: Result<(), String> = Ok(());
+            for r in 0..nrounds {
+                barrier.wait(); // round start (tags are set)
+                if result.is_ok() {
+                    let slice: Vec<_> = ops.iter().skip(r * per).take(per).cloned().collect();
+                    result = crate::run::guard(|| {
+                        for (k, spin, yld) in slice {
+                            let k = k % seq[r].len();
+                            for _ in 0..spin {
+                                std::hint::spin_loop();
+                            }
+                            if yld {
+                                std::thread::yield_now();
+                            }
+                            if in_flight.fetch_add(1, Ordering::SeqCst) > 0 {
+                                overlaps.fetch_add(1, Ordering::Relaxed);
+                            }
+                            let a = {
+                                let e = shared.read().map_err(|_| "engine lock poisoned".to_string())?;
+                                answer(&e, &case.base, k)
+                            };
+                            in_flight.fetch_sub(1, Ordering::SeqCst);
+                            progress.fetch_add(1, Ordering::Relaxed);
+                            if a != seq[r][k] {
+                                return Err(format!("round {} thread {} query {}: concurrent answer {:?} differs from the single-thread answer {:?}", r, ti, k, a, seq[r][k]));
+                            }
+                        }
+                        Ok(())
+                    })
+                    .unwrap_or_else(|p| Err(format!("thread {} panicked: {}", ti, p)));
+                }
+                barrier.wait(); // round end
+            }
+            result
+        }));
+    }
+    for r in 0..nrounds {
+        {
+            let mut e = shared.write().map_err(|_| "engine lock poisoned".to_string())?;
+            e.use_tags(&rounds[r].iter().map(|s| s.as_str()).collect::<Vec<_>>());
+            if r % 2 == 1 {
+                // switch twice so that freed allocations get re-used by other rules
+                e.use_tags(&[]);
+                e.use_tags(&rounds[r].iter().map(|s| s.as_str()).collect::<Vec<_>>());
+            }
+        }
+        barrier.wait();
+        barrier.wait();
+    }
+    let mut failure: Option<String> = None;
+    for h in handles {
+        match h.join() {
+            Ok(Ok(())) => {}
+            Ok(Err(m)) => {
+                failure.get_or_insert(m);
+            }
+            Err(_) => {
+                failure.get_or_insert("a worker thread died".into());
+            }
         }
     }
-    for h in handles {
-        let _ = h.join();
-    }
+    finished.store(true, Ordering::SeqCst);
     obs.inner_evals += progress.load(Ordering::Relaxed) as u64;
     let ov = overlaps.load(Ordering::Relaxed);
     if ov > 0 {
         obs.nontrivial = true;
         obs.label("queries-overlapped");
     }
+    if nrounds > 1 {
+        obs.label("tag-switch-between-rounds");
+    }
+    obs.label(if c.discard { "policy-discard-everything" } else { "policy-default" });
     obs.inner_labels.push(("overlapping-query-attempts", ov as u64));
     match failure {
         Some(m) => Err(m),
@@ -245,7 +331,7 @@ fn sync_bin() -> String {
 }
 
 pub fn check(ctx: &mut Ctx) {
-    ctx.rule = "schedules: one shared Engine in the build without unsync-regex-caching (regex-heavy list + cosmetic rules + resources, discard policy (1 ns, 0) so every query discards and recompiles), 2-16 threads x 20-200 mixed queries (network, csp, cosmetic, class/id) in generated per-thread orders with generated spin/yield points, released by a barrier; every answer is compared with the sequential answer of a sibling engine; a watchdog reports a deadlock only if no query completes anywhere for 60 s; a panic in any thread (incl. lock poisoning) is a failure. transcript: the same seeded stream of cases is answered and serialized by the single-thread and the thread-safe build; the digests must be equal. Non-trivial schedule = at least two threads were inside (or waiting to enter) a query at the same time.".into();
+    ctx.rule = "schedules: one shared Engine in the build without unsync-regex-caching (regex-heavy list + cosmetic rules + resources; half of the cases with discard policy (1 ns, 0) so every query discards and recompiles, half with the default policy so compiled regexes stay cached across tag switches), 2-16 persistent threads x 20-200 mixed queries (network, csp, cosmetic, class/id) in generated per-thread orders with generated spin/yield points, in 1-5 rounds separated by barriers; between rounds the controller switches the enabled tags through a write lock (re-allocating the same-shape tagged regex rules); request hosts contain the rules' host text at several label-aligned offsets; every answer is compared with the answer of a fresh single-thread engine for that round's tags, computed under the default AND the discard-everything policy (they must agree); a watchdog reports a deadlock only if no query completes anywhere for 60 s; a panic in any thread (incl. lock poisoning) is a failure. transcript: the same seeded stream of cases is answered and serialized by the single-thread and the thread-safe build; the digests must be equal. Non-trivial schedule = at least two threads were inside (or waiting to enter) a query at the same time.".into();
     ctx.assumptions = vec![
         "real threads sample interleavings; with the whole query under one mutex the schedule space collapses to query orderings, which are what is generated".into(),
         "deadlock is detected by absence of progress, never by a time budget".into(),
